@@ -177,6 +177,10 @@ def run(rep, tier):
     # helper calls under Cranelift (C08's Cranelift-side rules) are part of "same result as the interpreter"
     import props.c08 as c08
     c08.run(rep, tier, parts=("cranelift",))
+    # memory flags: a load tagged readonly / notrap / with an alias region may be merged with an earlier load or moved
+    # across a store, so its value differs from the interpreter's
+    import props.c11 as c11
+    c11.memflags_rule(rep, cx.F)
     rep.trust("rustc front end / typed THIR", "clmodel.py: InstBuilder semantics from the Cranelift 0.127 documentation", "Cranelift's lowering",
               "imodel (validated against the ISA under C01)")
     rep.assume("little-endian 64-bit host", "in-bounds accesses (bounds checks are decided under C11)")
